@@ -385,8 +385,55 @@ Theorem C15_rib_wd_without_announcement_never_written_refuted :
 Proof. exact RibMetricsProofs.rib_wd_without_announcement_witness. Qed.
 Print Assumptions C15_rib_wd_without_announcement_never_written_refuted.
 
+(* the strongest agreement that does hold for num_items: it is the number of stored routes as long as no prefix is held for two ids *)
+Theorem C15_rib_items_partial : forall us,
+  let s := ribm_run us in
+  (forall k k', is_Some (recs s.1 !! k) -> is_Some (recs s.1 !! k') -> k.1 = k'.1 -> k = k') ->
+  rm_items s.2 = N.of_nat (size (recs s.1)).
+Proof. exact RibMetricsProofs.rib_items_partial. Qed.
+Print Assumptions C15_rib_items_partial.
+
 (* two ids and two prefixes, an update of a held prefix, a withdrawal, a withdrawal of a prefix nobody holds, a session loss *)
 Example C15_rib_counters_example :
   (ribm_run [UBulk [MkPay (0, 1, 7) true 1; MkPay (0, 2, 7) true 1]; UBulk [MkPay (0, 1, 8) true 2]; UBulk [MkPay (0, 2, 7) false 0];
              UBulk [MkPay (0, 3, 7) false 0]; UWithdraw 8 None]).2 = MkRmet 2 2 1 1%Z 2 1 0.
 Proof. exact RibMetricsProofs.rib_counters_example. Qed.
+
+(* ================= the accept loops: connection_accepted_count of bmp-tcp-in and bgp-tcp-in =================
+   status_reporter.rs listener_connection_accepted, called by the accept loop of unit.rs for every connection the listener hands
+   out; over the pipeline models of E2e/E2eModel.v (uc_step: BMP routers, b_step: BGP speakers; read by the e2e engine, ops M / BM) *)
+From RV Require E2e.E2eModel E2e.E2eProofs E2e.E2eAcceptProofs.
+
+(* bmp-tcp-in: for every history the counter has grown by the number of connections made *)
+Theorem C15_bmp_accepted_counts_connections : forall l u,
+  E2eModel.uc_accepted (E2eModel.uc_run u l) = E2eModel.uc_accepted u + E2eAcceptProofs.uc_accept_count u l.
+Proof. exact E2eAcceptProofs.uc_accepted_counts_connections. Qed.
+Print Assumptions C15_bmp_accepted_counts_connections.
+
+(* ... and accepted - lost is the number of routers connected, at every point *)
+Theorem C15_bmp_connected_is_accepted_minus_lost : forall l,
+  E2eModel.uc_connected_spec (E2eModel.uc_run E2eModel.uc_init l) =
+  E2eModel.uc_accepted (E2eModel.uc_run E2eModel.uc_init l) - E2eModel.uc_lost (E2eModel.uc_run E2eModel.uc_init l).
+Proof. exact E2eProofs.uc_connected_is_accepted_minus_lost. Qed.
+Print Assumptions C15_bmp_connected_is_accepted_minus_lost.
+
+(* bgp-tcp-in: for every history of the running pipeline (traffic, edits of the peers, reloads on every schedule) the counter has
+   grown by the number of connections made - whether or not the peer was configured (the handler of an unknown peer is dropped
+   after the accept) *)
+Theorem C15_bgp_accepted_counts_connections : forall h st,
+  E2eModel.bs_accepted (E2eModel.b_run st h) = E2eModel.bs_accepted st + E2eAcceptProofs.b_accept_count st h.
+Proof. exact E2eAcceptProofs.b_accepted_counts_connections. Qed.
+Print Assumptions C15_bgp_accepted_counts_connections.
+
+Theorem C15_accepted_monotone : forall l o u h bo st,
+  E2eModel.uc_accepted (E2eModel.uc_run u l) <= E2eModel.uc_accepted (E2eModel.uc_run u (l ++ [o])) /\
+  E2eModel.bs_accepted (E2eModel.b_run st h) <= E2eModel.bs_accepted (E2eModel.b_run st (h ++ [bo])).
+Proof. exact E2eAcceptProofs.accepted_monotone. Qed.
+Print Assumptions C15_accepted_monotone.
+
+(* a configured peer, an unconfigured one, a second connection of a connected address (the engine makes none), a close, the
+   address again: three connections accepted *)
+Example C15_bgp_accepted_example : forall s0 n0,
+  E2eAcceptProofs.b_accept_count (E2eModel.b_init s0 n0)
+    [E2eModel.BOpen 0; E2eModel.BOpen 3; E2eModel.BOpen 0; E2eModel.BClose 0; E2eModel.BOpen 0; E2eModel.BOpen 9] = 3.
+Proof. exact E2eAcceptProofs.b_accept_example. Qed.
